@@ -90,7 +90,7 @@ VARIANT_FLAGS = {
     'plain': ['-O2', '-frounding-math', '-ffp-contract=off'],
     'o0': ['-O0', '-frounding-math', '-ffp-contract=off', '-DVK_SLOW=1'],
     'o1': ['-O1', '-frounding-math', '-ffp-contract=off'],
-    'o3': ['-O3', '-frounding-math', '-ffp-contract=off'],
+    'o3': ['-O3', '-DNDEBUG', '-frounding-math', '-ffp-contract=off'],    # release-style: asserts compiled out
     'san': ['-O1', '-g', '-fno-omit-frame-pointer', '-fsanitize=address,undefined',
             '-fsanitize-recover=undefined', '-frounding-math', '-ffp-contract=off', '-DVK_SAN=1'],
     'cov': ['--coverage', '-O0', '-frounding-math', '-ffp-contract=off'],
